@@ -40,6 +40,10 @@ type pkgConf struct {
 	ctx   bool     // context -> vctx
 	vos   bool     // os / io -> vos
 	files []string // restrict to these files (nil = all non-test files)
+	// timersOnly: nothing is rewritten but timer construction (time.After, NewTimer, AfterFunc,
+	// NewTicker, Tick, context.WithTimeout / WithDeadline), which goes through vtime's scaled
+	// real timers: used for code that runs in real processes of its own (daemon)
+	timersOnly bool
 }
 
 var targets = []pkgConf{
@@ -49,6 +53,7 @@ var targets = []pkgConf{
 	{dir: "httpd", chans: true},
 	{dir: "logger", chans: true},
 	{dir: "util/osutil", vos: true, files: []string{"file.go"}},
+	{dir: "daemon", timersOnly: true},
 }
 
 var (
@@ -268,7 +273,7 @@ func instrumentPkg(conf pkgConf, consts map[string]string, targets map[string]bo
 	if conf.path != "" {
 		ipath = conf.path
 	}
-	if conf.files == nil && !*noReset {
+	if conf.files == nil && !*noReset && !conf.timersOnly {
 		// package-level state must start afresh in every execution: add a function that re-runs
 		// the package's variable initialisation and init functions (see resetGlobals)
 		aug, err := resetGlobals(dir, ipath, fset, files, names)
@@ -961,7 +966,21 @@ var osNames = map[string]bool{"Rename": true, "Open": true, "Create": true, "Ope
 	"ReadFile": true, "WriteFile": true, "Link": true, "Symlink": true, "SameFile": true, "Truncate": true, "RemoveAll": true, "Mkdir": true, "MkdirAll": true, "File": true}
 var ioNames = map[string]bool{"Copy": true, "CopyN": true, "CopyBuffer": true, "ReadAll": true}
 
+var scaledTime = map[string]bool{"After": true, "NewTimer": true, "AfterFunc": true, "NewTicker": true, "Tick": true}
+var scaledCtx = map[string]bool{"WithTimeout": true, "WithDeadline": true}
+
 func (rw *rewriter) post(c *astutil.Cursor) error {
+	if rw.conf.timersOnly {
+		if n, ok := c.Node().(*ast.SelectorExpr); ok {
+			switch {
+			case rw.pkgOf(n.X) == "time" && scaledTime[n.Sel.Name]:
+				c.Replace(rw.shim("vtime", "Scaled"+n.Sel.Name))
+			case rw.pkgOf(n.X) == "context" && scaledCtx[n.Sel.Name]:
+				c.Replace(rw.shim("vtime", "Scaled"+n.Sel.Name))
+			}
+		}
+		return nil
+	}
 	switch n := c.Node().(type) {
 	case *ast.FuncDecl:
 		rw.inGenerated = false
